@@ -12,13 +12,13 @@ CHECKS = {
          "Coq proof (pull_split / drive_split) + metamorphic differential testing of the tie"),
  "C03": ("Round-trip theorem Frame.build vs. a reference RFC 6455 server decoder for all opcodes/keys/payloads; API-level theorem on the connection model; every sendall of the real client decoded by an independent decoder and compared byte-for-byte with the model.",
          "Coq proof of the codec round-trip; correspondence on every payload length around the class boundaries"),
- "C04": ("Regenerated proof obligations for Frame.validate / is_reserved / Status.invalid_codes; violation theorem on the model; exhaustive two-byte header sweep and generated prefix x violation x rest scenarios on the real client.",
+ "C04": ("Regenerated proof obligations for Frame.validate / is_reserved / Status.invalid_codes; whole-stream violation theorems on the model (after any conforming prefix: out-of-place data frames, every header-level violation in any length form, lengths >= 2^63, masked frames, malformed Close payloads each give exactly one ProtocolError, fail the feed and deliver nothing further); exhaustive two-byte header sweep and generated prefix x violation x rest scenarios on the real client.",
          "Coq proof + regenerated finite tables checked by vm_compute + exhaustive header sweep of the tie"),
- "C05": ("The validator's state graph is regenerated from the running code and proved equal to the model automaton, which is proved equivalent to the RFC 3629 grammar (accept <-> well-formed, reject <-> non-viable prefix) for all byte strings; delivery and fail-fast through the real session loop.",
+ "C05": ("The validator's state graph is regenerated from the running code and proved equal to the model automaton, which is proved equivalent to the RFC 3629 grammar (accept <-> well-formed, reject <-> non-viable prefix) for all byte strings; stream-level theorems (after any conforming prefix, text payload bytes with no well-formed continuation fail the feed at once with one critical ProtocolError; an ill-formed complete text frame is never delivered); delivery and fail-fast through the real session loop.",
          "Coq proof over all byte strings via automaton/grammar equivalence; regenerated DFA tie by vm_compute over 9x256"),
  "C07": ("Monitor-automaton theorem on the session model for all environments and strategies; exhaustive bounded enumeration of server steps x application reactions on the real loop, full traces compared with the model.",
          "Coq proof by invariant over the run loop + exhaustive bounded correspondence"),
- "C08": ("Closing-handshake theorems on the model (single Close, nothing after it, both directions); all small orders and random histories on the real client judged on the decoded wire.",
+ "C08": ("Closing-handshake theorems on the model (single Close and nothing after it in every history; whole-stream theorems for both directions: the server's Close after any conforming prefix is answered by exactly one echo with its payload, the server's answer to the client's Close yields Closed and writes nothing); all small orders and random histories on the real client judged on the decoded wire.",
          "Coq proof by invariant + correspondence"),
  "C09": ("No-escape theorem on the model over the fault oracle; systematic fault injection at every socket operation and byte offset on the real client; exhaustive connect-outcome patterns against the real _connect_sock.",
          "Coq proof over all fault scripts of the model + fault enumeration of the tie"),
@@ -40,7 +40,7 @@ CHECKS = {
          "regenerated inventory obligation + differential testing (second connection vs fresh object)"),
  "C18": ("No-stall theorem on the transport model (the loop blocks only when the TLS pending buffer and the kernel queue are both empty; everything available is handed to feed before blocking); the real loop and the real SelectorBase.wait over a simulated kernel/TLS layer on a virtual clock, plus real loopback TCP and TLS runs. Partial: kernel and TLS are modelled.",
          "Coq proof over the transport model + virtual-clock correspondence + real-socket tests"),
- "C19": ("Theorem on the proxy negotiation model (reuses the parser segmentation lemma): only a complete 200 header block yields a tunnel; the real _connect/_connect_proxy against a fake socket module with every reply kind, URL shape and segmentation; all socket operations logged.",
+ "C19": ("Theorems on the proxy negotiation model (reuses the parser segmentation lemma): only a complete 200 header block yields a tunnel, and in the whole attempt the upgrade request is written only over an established tunnel; the real _connect/_connect_proxy against a fake socket module with every reply kind, URL shape and segmentation; all socket operations logged.",
          "Coq proof over the proxy parser model + correspondence on logged socket operations"),
  "C16": ("Theorem on the persist model for every outcome sequence, draw and exit script; real persist() over scripted connections with exact rational comparison of delays.",
          "Coq proof by induction over the outcome list + exact-fraction correspondence"),
